@@ -47,7 +47,8 @@ def directed(rng: random.Random) -> dict:
     kind = rng.choice(["shadow_chain", "sibling_reuse", "qualified_forward", "qualified_backward", "leak_inner", "leak_sibling", "leak_macro", "leak_macro_qualified",
                        "leak_loop", "symbol_kinds", "named_in_named", "macro_local_vs_outer", "shadow_unsized", "block_if_label", "named_in_loop", "named_in_macro",
                        "const_shadowed_by_later_inner", "symbol_kinds_unsized", "parameter_names_at_call_site", "application_expanding_to_nothing", "namespace_reopened", "self_qualified",
-                       "same_scope_name_nested_later", "leak_named_scope_in_anonymous", "chain_through_empty_scopes", "assign_in_loop_shadows_outer"])
+                       "same_scope_name_nested_later", "leak_named_scope_in_anonymous", "chain_through_empty_scopes", "assign_in_loop_shadows_outer",
+                       "argument_names_later_nearer_label", "block_argument_defines_name_read_by_body"])
     expect_reject = False
     nop = {"k": "ins", "m": "nop", "shape": "imp", "sz": "", "e": None}
     if kind == "shadow_chain":
@@ -104,6 +105,22 @@ def directed(rng: random.Random) -> dict:
                  {"k": "block", "b": [{"k": "sym", "n": "kk", "e": E(7)}, ref("kk"), {"k": "data", "d": "db", "es": [E("kk")]},
                                       {"k": "block", "b": [ref("kk"), {"k": "assign", "n": "kk", "e": E(9)}, ref("kk")]}, ref("kk")]},
                  ref("kk"), {"k": "data", "d": "db", "es": [E("kk"), E("ss")]}]
+    elif kind == "argument_names_later_nearer_label":
+        # the argument of an application names a label that the application's own block defines further down, while an enclosing scope placed
+        # a label of that name before: the argument means the nearest enclosing definition, like any other reference written there
+        jm = {"k": "macro", "n": "brq", "ps": ["ptarget"], "b": [{"k": "ins", "m": "jmp", "shape": "dir", "sz": "w", "e": E("ptarget")}, dl("ptarget")]}
+        inner = [{"k": "call", "n": "brq", "as": [E("xx")]}, nop, lab("xx"), nop, {"k": "call", "n": "brq", "as": [E("xx")]}]
+        wrap = rng.choice(["block", "scope", "loop", "block_in_block"])
+        st = {"block": {"k": "block", "b": inner}, "scope": {"k": "scope", "n": "nsq", "b": inner}, "loop": {"k": "for", "v": "itq", "a": E(0), "b": E(2), "body": inner},
+              "block_in_block": {"k": "block", "b": [nop, {"k": "block", "b": inner}]}}[wrap]
+        body += [jm, lab("xx"), nop, {"k": "call", "n": "brq", "as": [E("xx")]}, st, {"k": "call", "n": "brq", "as": [E("xx")]}]
+    elif kind == "block_argument_defines_name_read_by_body":
+        # a block argument is pasted into the application: a label it defines is visible to the rest of the macro body (and to a second block
+        # argument), and is preferred to an outer label of the same name
+        hook = {"k": "macro", "n": "hookq", "ps": ["pcode"], "b": [{"k": "ins", "m": "jmp", "shape": "dir", "sz": "w", "e": E("xx")}, {"k": "splice", "n": "pcode"}, dl("xx")]}
+        two = {"k": "macro", "n": "twoq", "ps": ["pfirst", "psecond"], "b": [{"k": "splice", "n": "pfirst"}, nop, {"k": "splice", "n": "psecond"}]}
+        body += [hook, two, lab("xx"), nop, {"k": "call", "n": "hookq", "as": [{"blk": [nop, lab("xx"), nop]}]}, dl("xx"),
+                 {"k": "call", "n": "twoq", "as": [{"blk": [dl("yy"), nop]}, {"blk": [lab("yy"), nop, dl("xx")]}]}]
     elif kind == "parameter_names_at_call_site":
         # the call site uses names that are also parameter names of the callee (constants, loop variables, an outer macro's parameters)
         dbp = lambda *n: {"k": "data", "d": "db", "es": [E(x) for x in n]}  # noqa: E731
